@@ -99,6 +99,10 @@ var whitelist = []fnSpec{
 	// the shipped FastCodec structs (base/k-base.go): goto to trailing error labels, fields stored
 	// through the pointer receiver, thrift.Binary.Skip as an external function
 	{"base", "Base", "FastRead"}, {"base", "BaseResp", "FastRead"},
+	// phase 3 (ext3.go): thrift.ApplicationException (exception.go): switch without a tag, b[off:]
+	// handed to the in-place writers, a call of another method of the same receiver
+	{"thrift", "ApplicationException", "BLength"}, {"thrift", "ApplicationException", "FastRead"},
+	{"thrift", "ApplicationException", "FastWrite"}, {"thrift", "ApplicationException", "FastWriteNocopy"},
 }
 
 // Coq names that differ from g_<pkg>_<Func> (methods of several types with the same name)
@@ -113,6 +117,10 @@ var coqNameOf = map[fnSpec]string{
 	{"thrift", "BufferReader", "Skip"}:           "g_thrift_BufferReader_Skip",
 	{"base", "Base", "FastRead"}:                 "g_base_Base_FastRead",
 	{"base", "BaseResp", "FastRead"}:             "g_base_BaseResp_FastRead",
+	{"thrift", "ApplicationException", "BLength"}:         "g_thrift_ApplicationException_BLength",
+	{"thrift", "ApplicationException", "FastRead"}:        "g_thrift_ApplicationException_FastRead",
+	{"thrift", "ApplicationException", "FastWrite"}:       "g_thrift_ApplicationException_FastWrite",
+	{"thrift", "ApplicationException", "FastWriteNocopy"}: "g_thrift_ApplicationException_FastWriteNocopy",
 }
 
 // library calls that are given a meaning (everything else fails)
@@ -673,6 +681,9 @@ func (c *fctx) expr(e ast.Expr) (pre []string, term string) {
 			}
 		}
 		if name, ok := c.fieldVar(x); ok {
+			if c.isRecv(x.X) {
+				c.readMut = true // a method of the same receiver called in the same expression may assign the field
+			}
 			return c.recvCheck(x.X), c.readVar(name)
 		}
 		c.failf(e, "selector expression %s", types.ExprString(e))
@@ -1465,7 +1476,7 @@ func (c *fctx) switchStmt(depth int, s *ast.SwitchStmt, rest func(int) string) s
 		return c.block(depth, []ast.Stmt{s.Init, &inner}, rest)
 	}
 	if s.Tag == nil {
-		c.failf(s, "switch without a tag")
+		return c.switchCond(depth, s, rest)
 	}
 	if _, _, ok := intTypeInfo(c.info.TypeOf(s.Tag)); !ok {
 		c.failf(s, "switch on %s", c.info.TypeOf(s.Tag))
@@ -1622,8 +1633,13 @@ func (t *tr) analyse(f *fnInfo, seen map[*fnInfo]bool) {
 					for j, m := range callee.mutated {
 						if m && j < len(x.Args) {
 							if i := paramIdx(x.Args[j]); i >= 0 {
-								if _, plain := ast.Unparen(x.Args[j]).(*ast.Ident); plain {
+								switch y := ast.Unparen(x.Args[j]).(type) {
+								case *ast.Ident:
 									f.mutated[i] = true
+								case *ast.SliceExpr: // p[a:] handed to a callee that stores into it
+									if y.High == nil && y.Max == nil && isByteSlice(f.params[i].Type()) {
+										f.mutated[i] = true
+									}
 								}
 							}
 						}
